@@ -12,7 +12,7 @@ META = dict(
     technique='symbolic execution (sx proxies) of the real ResponseFuture host-selection path over solver-enumerated pool-state vectors and event orders + z3 validity per path',
     bounds=dict(quick='plans of 1..4 hosts x 5 pool conditions per host; afterwards <= 3 events with responses {rows, unavailable -> policy oracle {NEXT, RETHROW}}; explicit-host target with 2 conditions',
                 thorough='same plans, <= 5 events, all four retry decisions'),
-    assumptions=['the load-balancing plan is finite and fixed for the execution'],
+    assumptions=['race jobs: a timer (client-side timeout, speculative execution) may fire on a thread other than the event loop\'s, so it can overlap the handling of a response - Connection.create_timer does not promise otherwise and the driver itself guards _on_timeout with the connection lock; with the bundled reactors timers run on the event-loop thread, for which these schedules are an over-approximation; two responses are never handled at the same time', 'the load-balancing plan is finite and fixed for the execution'],
     stubs=['transport/timers/executor: harness kit', 'codec: identity', 'retry policy: decision oracle'],
     outside=['plans that change while the request runs'],
 )
